@@ -33,8 +33,44 @@ fn park(k: u32) {
 fn hex(b: &[u8]) -> String { b.iter().map(|x| format!("{:02x}", x)).collect() }
 fn unhex(s: &str) -> Vec<u8> { (0..s.len() / 2).map(|i| u8::from_str_radix(&s[2 * i..2 * i + 2], 16).unwrap()).collect() }
 
+/// the single-threaded specification, computed here: split at \r\n | \n | \r, a trailing terminator yields a final empty line
+fn spec_lines(text: &str) -> Vec<String> {
+    let b = text.as_bytes(); let mut out = vec![]; let mut cur = vec![]; let mut i = 0;
+    while i < b.len() { match b[i] { b'\n' => { out.push(String::from_utf8(std::mem::take(&mut cur)).unwrap()); } b'\r' => { out.push(String::from_utf8(std::mem::take(&mut cur)).unwrap()); if i + 1 < b.len() && b[i + 1] == b'\n' { i += 1; } } c => cur.push(c) } i += 1; }
+    out.push(String::from_utf8(cur).unwrap()); out
+}
+/// free-running stress on real threads (no scheduler): every answer must be the single-threaded one. Supporting evidence for C16
+/// and the only way to reach code paths that contain no yield point. usage: smconc stress <seed> <millis>
+fn stress(seed: u64, millis: u64) {
+    let mut rng = seed.wrapping_mul(0x9E3779B97F4A7C15) | 1; let mut next = move || { rng ^= rng << 13; rng ^= rng >> 7; rng ^= rng << 17; rng };
+    let texts: Vec<String> = vec!["".into(), "a".into(), "a\nb\nc".into(), "a\r\n\nb\n".into(), "\u{e9}\rb".into(),
+        (0..40).map(|i| format!("line{}", i)).collect::<Vec<_>>().join("\n"), (0..25).map(|i| format!("{}{}", "x".repeat(i % 7), i)).collect::<Vec<_>>().join("\r\n") + "\r"];
+    let start = std::time::Instant::now(); let mut rounds = 0u64; let mut calls = 0u64; let mut bad: Vec<String> = vec![];
+    while (start.elapsed().as_millis() as u64) < millis && bad.len() < 5 {
+        let text = texts[(next() % texts.len() as u64) as usize].clone(); let want = Arc::new(spec_lines(&text));
+        let sv = Arc::new(sourcemap::SourceView::new(text.clone().into())); let nthreads = 2 + (next() % 3) as usize;
+        let barrier = Arc::new(std::sync::Barrier::new(nthreads)); let mut handles = vec![];
+        for t in 0..nthreads {
+            let sv = sv.clone(); let want = want.clone(); let barrier = barrier.clone(); let mut r = next() | 1; let ncalls = [3u64, 8, 200][(next() % 3) as usize];
+            handles.push(std::thread::spawn(move || { let mut errs = vec![]; barrier.wait();
+                for _ in 0..ncalls { r ^= r << 13; r ^= r >> 7; r ^= r << 17;
+                    let kind = r % 10; let i = ((r >> 8) % (want.len() as u64 + 2)) as u32;
+                    let res = catch_unwind(AssertUnwindSafe(|| match kind { 0 => { let c = sv.line_count(); if c == want.len() { None } else { Some(format!("line_count={} want {}", c, want.len())) } }
+                        1 => { let ls: Vec<&str> = sv.lines().collect(); if ls == want.iter().map(|s| s.as_str()).collect::<Vec<_>>() { None } else { Some(format!("lines() gave {} lines, want {}", ls.len(), want.len())) } }
+                        _ => { let g = sv.get_line(i); let w = want.get(i as usize).map(|s| s.as_str()); if g == w { None } else { Some(format!("get_line({})={:?} want {:?}", i, g, w)) } } }));
+                    match res { Ok(None) => {} Ok(Some(e)) => errs.push(format!("thread{} {}", t, e)), Err(_) => errs.push(format!("thread{} call kind {} index {} panicked", t, kind, i)) } }
+                (errs, ncalls) }));
+        }
+        for h in handles { let (e, n) = h.join().unwrap(); calls += n; for x in e { if bad.len() < 5 { bad.push(format!("text={} {}", hex(text.as_bytes()), x)); } } }
+        match catch_unwind(AssertUnwindSafe(|| sv.line_count())) { Ok(c) if c == want.len() => {} Ok(c) => bad.push(format!("text={} afterwards line_count={} want {}", hex(text.as_bytes()), c, want.len())), Err(_) => bad.push(format!("text={} view unusable afterwards (panic)", hex(text.as_bytes()))) }
+        rounds += 1;
+    }
+    println!("stress\trounds={}\tcalls={}\tmismatches={}\t{}", rounds, calls, bad.len(), bad.join(" | "));
+}
 fn main() {
     std::panic::set_hook(Box::new(|_| {}));
+    let args: Vec<String> = std::env::args().collect();
+    if args.get(1).map(|s| s.as_str()) == Some("stress") { stress(args.get(2).and_then(|s| s.parse().ok()).unwrap_or(1), args.get(3).and_then(|s| s.parse().ok()).unwrap_or(2000)); return; }
     sourcemap::verif::set_yield_hook(Box::new(park));
     for line in std::io::stdin().lock().lines() {
         let line = line.unwrap(); let f: Vec<&str> = line.split('\t').collect();
